@@ -736,11 +736,19 @@ fn refresh_coordinate_keys(
 
                 // Add the most recent secrets from the MSK that do not belong
                 // to the USK at the front of the updated chain (cf Invariant.1)
+                let mut is_found = false;
                 for (_, msk_secret) in msk_secrets.by_ref() {
                     if msk_secret == &first_secret {
+                        is_found = true;
                         break;
                     }
                     updated_chain.push_back(msk_secret.clone());
+                }
+
+                // The most recent USK secret was removed from the MSK: so were
+                // all the older ones (cf Invariant.2).
+                if !is_found {
+                    return Some((coordinate, updated_chain));
                 }
 
                 // Push the first USK secret since it was consumed from the USK
